@@ -513,11 +513,16 @@ class SMHooks(NAHooks, OpHooks):
             if name == 'is_power_space':
                 return all(p == sp.parts[0] for p in sp.parts)
             if name == 'size':
-                return len(sp.parts)
+                # ProductSpace.size: product of the shape, which includes
+                # the shape of the parts for power spaces only
+                n = 1
+                for k in self.space_attr(I, sp, 'shape'):
+                    n *= k
+                return n if sp.parts else 0
             if name == 'shape':
-                if all(p == sp.parts[0] for p in sp.parts) and isinstance(
-                        sp.parts[0], NSpace):
-                    return (len(sp.parts),) + sp.parts[0].shape
+                if sp.parts and all(p == sp.parts[0] for p in sp.parts):
+                    sub = self.space_attr(I, sp.parts[0], 'shape')
+                    return (len(sp.parts),) + tuple(sub)
                 return (len(sp.parts),)
             if name == 'dtype':
                 return sp.parts[0].dt if sp.parts else None
@@ -620,8 +625,8 @@ class SMHooks(NAHooks, OpHooks):
         if isp:
             if name == 'parts':
                 return tuple(x.parts)
-            if name == 'size':
-                return len(x.parts)
+            if name in ('size', 'shape'):
+                return self.space_attr(I, sp, name)
             return NotImplemented
         if name == 'data':
             return x.data
